@@ -1102,13 +1102,20 @@ func (fr *Frame) execRange(st *State, s *ast.RangeStmt, label string) []Outcome 
 	case *types.Chan:
 		// for v := range ch: any number of iterations, each receiving an arbitrary element; the loop
 		// ends when the channel is closed (termination not claimed)
+		// $seen: the set of values received so far. What the producer delivers is stated by listed assumptions:
+		// `assume loopN: expr` about the element received in an iteration, `assume exitN: expr` about $seen when the
+		// channel is found closed (the consumer-side view of the producer's contract).
 		fr.evalIgnore(st, s.X)
+		seenS := ArrSort(e.sortOf(u.Elem()), BoolSort)
+		lc.seen = ConstArr(seenS, False)
 		lc.k = IntLit(0)
 		fr.checkInvs(st, lc, "entry", s)
 		head := st.Clone()
 		lc.frameKeys = fr.havocMods(head, ms)
 		k := Fresh("k", IntSort)
 		lc.k = k
+		seen := Fresh("seen", seenS)
+		lc.seen = seen
 		head.Assume(Le(IntLit(0), k))
 		fr.assumeInvs(head, lc)
 		b := head.Clone()
@@ -1120,7 +1127,7 @@ func (fr *Frame) execRange(st *State, s *ast.RangeStmt, label string) []Outcome 
 		if fr.fc != nil && fr.fn == fr.top.fn {
 			// `assume loopN: expr`: listed assumption about the element received in an iteration
 			for _, c := range fr.fc.Assumes[fmt.Sprintf("loop%d", ord)] {
-				b.Assume(fr.top.evalSpecBool(b, c.Expr, nil, fr.top.entry))
+				b.Assume(fr.top.evalSpecBool(b, c.Expr, fr.loopBindings(lc), fr.top.entry))
 			}
 		}
 		for _, o := range fr.execBlock(b, s.Body.List) {
@@ -1128,6 +1135,7 @@ func (fr *Frame) execRange(st *State, s *ast.RangeStmt, label string) []Outcome 
 			case o.kind == oNormal, o.kind == oContinue && (o.label == "" || o.label == label):
 				lc2 := *lc
 				lc2.k = Add(k, IntLit(1))
+				lc2.seen = Store(seen, elem, True)
 				fr.checkInvs(o.st, &lc2, "preserve", s)
 			case o.kind == oBreak && (o.label == "" || o.label == label):
 				out = append(out, Outcome{oNormal, "", o.st})
@@ -1137,6 +1145,11 @@ func (fr *Frame) execRange(st *State, s *ast.RangeStmt, label string) []Outcome 
 		}
 		x := head.Clone()
 		x.Branch(Not(more))
+		if fr.fc != nil && fr.fn == fr.top.fn {
+			for _, c := range fr.fc.Assumes[fmt.Sprintf("exit%d", ord)] {
+				x.Assume(fr.top.evalSpecBool(x, c.Expr, fr.loopBindings(lc), fr.top.entry))
+			}
+		}
 		out = append(out, Outcome{oNormal, "", x})
 	default:
 		fr.unsupported(s, "range over %s", xt)
